@@ -350,8 +350,7 @@ class ODF2MoinMoin(object):
         return "[[BR]]"
 
     def text_note(self, node):
-        cite = (node.getElementsByTagName("text:note-citation")[0]
-                    .childNodes[0].nodeValue)
+        cite = self.textToString(node.getElementsByTagName("text:note-citation")[0])
         body = (node.getElementsByTagName("text:note-body")[0]
                     .childNodes[0])
         self.footnotes.append((cite, self.textToString(body)))
